@@ -1491,4 +1491,90 @@ theorem pollB_ok {K : VP → Prop} (cfg : Cfg) (hsf : cfg.serviceFirst = true) (
     exact (pa_loop h.srv h.sK d w.t p.after p.seed p.ts _ hresp w.C w.ctr h.cli).2
 
 
+theorem loop_sets_seed {S : Store} (hS : SInv S) (d : Def) (t after seed ts : Nat) (hts : ts ≠ 0) (hseed : seed ≠ 0)
+    (c : Store) (ctr : Nat) (hle : seed ≤ ctr) (hc : c.rows = []) :
+    ∀ (resp : List VP), resp ≠ [] → RespOf S after resp → (clientLoop d t seed ts c ctr resp).1.seed = seed := by
+  intro resp hne hresp
+  cases resp with
+  | nil => exact absurd rfl hne
+  | cons vp rest =>
+    obtain ⟨rv, hrv, hvp, _⟩ := hresp vp (by simp)
+    have hv : VPWF vp rv.subject rv.id rv.exp := hvp ▸ (hS.wf rv hrv).vpwf
+    rw [clientLoop_cons d t seed ts c ctr vp rest _ _ _ hv]
+    have hk : c.hasKey rv.subject rv.id = false := by simp [Store.hasKey, hc]
+    obtain ⟨f1, f2, f3⟩ := iter_add_fields (d := d) (now := t) (seed := seed) (ts := ts) (ctr := ctr) (vp := vp) (e := rv.exp) hk
+    have hs1 : (clientIter d t seed ts c ctr vp rv.subject rv.id rv.exp).1.seed = seed := by
+      rw [f1]; simp [seedOf, hts]
+    have hrest : RespOf S after rest := fun v hv' => hresp v (by simp [hv'])
+    have hpt := pt_loop (C0 := (clientIter d t seed ts c ctr vp rv.subject rv.id rv.exp).1)
+      (ctr0 := (clientIter d t seed ts c ctr vp rv.subject rv.id rv.exp).2) hS (seed := seed) (ts := ts)
+      (by rw [f3]; omega) (fun h0 => absurd h0 hts) (fun _ => hseed) d t after rest hrest
+      (clientIter d t seed ts c ctr vp rv.subject rv.id rv.exp).1 (clientIter d t seed ts c ctr vp rv.subject rv.id rv.exp).2
+      ⟨Nat.le_refl _, by rw [hs1, f3]; omega, fun h0 => absurd (hs1 ▸ h0) hseed, Or.inl ⟨rfl, rfl⟩⟩
+    rcases hpt.tr with ⟨t1, _⟩ | ⟨_, t1, _⟩ | ⟨t0, _⟩
+    · rw [t1]; exact hs1
+    · exact t1
+    · exact absurd t0 hts
+
+/-- after a quiescent poll of a replica that carried the list's seed (or none) the replica carries the list's seed -/
+theorem converge_one_seed {K : VP → Prop} (cfg : Cfg) (hsf : cfg.serviceFirst = true) (hrw : cfg.restartOnWipe = true)
+    (d : Def) (w : World) (perm : List VP → List VP) (hperm : ∀ l, (perm l).Perm l) (h : WInv K w)
+    (hc : w.C.seed = w.S.seed ∨ w.C.seed = 0) : (poll cfg d w perm).C.seed = w.S.seed := by
+  rw [poll_eq cfg hsf]
+  unfold quietResp
+  obtain ⟨hresp, hall⟩ := respOf_perm (S := w.S) (after := w.C.lastTs) hperm
+  rcases clientApply_cases cfg hrw d w.C w.t w.ctr w.S.seed w.S.lastTs (perm ((w.S.rowsAfter w.C.lastTs).map (·.vp))) with ⟨h1, h2, _⟩ | ⟨_, heq⟩
+  · rcases hc with hc | hc
+    · exact absurd hc h1
+    · exact absurd hc h2
+  · rw [heq]
+    show (clientLoop d w.t w.S.seed w.S.lastTs w.C w.ctr (perm ((w.S.rowsAfter w.C.lastTs).map (·.vp)))).1.seed = w.S.seed
+    by_cases hs0 : w.S.seed = 0
+    · have hrows : w.S.rows = [] := (h.srv.seed0 hs0).2
+      have : perm ((w.S.rowsAfter w.C.lastTs).map (·.vp)) = [] := by
+        have hp := hperm ((w.S.rowsAfter w.C.lastTs).map (·.vp))
+        have : (w.S.rowsAfter w.C.lastTs).map (·.vp) = [] := by simp [Store.rowsAfter, hrows]
+        rw [this] at hp ⊢
+        exact List.Perm.eq_nil hp
+      rw [this]
+      simp only [clientLoop]
+      rcases hc with hc | hc
+      · exact hc
+      · rw [hc, hs0]
+    · have hts : w.S.lastTs ≠ 0 := by have := (h.srv.seedPos hs0).1; omega
+      rcases hc with hc | hc
+      · have hpt := pt_loop h.srv h.sLe (fun hz0 => absurd hz0 hts) (fun _ => hs0) d w.t w.C.lastTs _ hresp w.C w.ctr
+          ⟨Nat.le_refl _, h.cLe, h.cz, Or.inl ⟨rfl, rfl⟩⟩
+        rcases hpt.tr with ⟨t1, _⟩ | ⟨_, t1, _⟩ | ⟨t0, _⟩
+        · rw [t1]; exact hc
+        · exact t1
+        · exact absurd t0 hts
+      · obtain ⟨hl0, hr0⟩ := h.cz hc
+        apply loop_sets_seed h.srv d w.t w.C.lastTs w.S.seed w.S.lastTs hts hs0 w.C w.ctr h.sLe hr0 _ _ hresp
+        -- the list is not empty, so neither is the response
+        intro hnil
+        obtain ⟨r, hr⟩ := List.exists_mem_of_ne_nil _ (h.srv.seedPos hs0).2
+        have := hall r hr (by have := (h.srv.bound r hr).1; omega)
+        rw [hnil] at this
+        cases this
+
+
+theorem converge_two_seed {K : VP → Prop} (hK : IdFun K) (cfg : Cfg) (hsf : cfg.serviceFirst = true) (hrw : cfg.restartOnWipe = true)
+    (d : Def) (w : World) (p1 p2 : List VP → List VP) (hp1 : ∀ l, (p1 l).Perm l) (hp2 : ∀ l, (p2 l).Perm l) (h : WInv K w) :
+    (poll cfg d (poll cfg d w p1) p2).C.seed = w.S.seed := by
+  have hw1 := winv_poll hK cfg hsf hrw d w p1 hp1 h
+  have key : (poll cfg d w p1).S = w.S ∧ (poll cfg d w p1).C.seed = w.S.seed := by
+    by_cases hc : w.C.seed = w.S.seed ∨ w.C.seed = 0
+    · obtain ⟨a, _, _, _⟩ := converge_one hK cfg hsf hrw d w p1 hp1 h hc
+      exact ⟨a, converge_one_seed cfg hsf hrw d w p1 hp1 h hc⟩
+    · have h1 : w.C.seed ≠ w.S.seed := fun x => hc (Or.inl x)
+      have h2 : w.C.seed ≠ 0 := fun x => hc (Or.inr x)
+      obtain ⟨a, b, _⟩ := poll_wipes cfg hsf hrw d w p1 h1 h2
+      exact ⟨b, by rw [a]⟩
+  obtain ⟨hS, hseed⟩ := key
+  have := converge_one_seed cfg hsf hrw d (poll cfg d w p1) p2 hp2 hw1 (by rw [hS]; exact Or.inl hseed)
+  rw [hS] at this
+  exact this
+
+
 end Nuts.C16
